@@ -58,4 +58,8 @@ CHECKS = {
    text="CoEmcy keeps only the set of active errors and the list of recorded activations; error register and error count are derived from the active set exactly as the property defines them. TLC checks one frame per real transition (none for a silent reset, an invalid 1014h or a forbidden NMT state) over all histories of set/clear/reset/1003h/1014h/NMT letters for a 4-error table with class sharing; "
         "every edge plus a probe (register, count, state of each error, full history read, one more activation, loud reset) and random walks with a 5-error table and depth 3 are replayed: frames with code / register / manufacturer bytes, storage change of 1001h, COEmcyCnt/COEmcyGet, SDO reads of 1003h, abort code of a non-zero write.",
    note=MC_NOTE, technique="TLA+/TLC model checking + edge-cover behaviours replayed against the C code", ref="DESIGN.md section 8, C15"),
+ "C18": dict(
+   text="CoLss has one operator per LSS service function incl. the shared sequence counter; TLC checks over all request sequences of the alphabet (146k states in the thorough tier): configuration / inquiry / store act in configuration state only, at most one answer per request repeating the command specifier, waiting->configuration only by switch-global or a complete matching selective sequence, "
+        "only node ids 1..127/255 and defined bit rates are ever configured. Every edge + probe (complete the selective / identify sequence, switch to configuration, inquire all, store, non-configured query, reset communication, boot-up identifier, inquire node id) and walks are replayed comparing all frames on 7E4h, COLssStore arguments, COLssLoad calls, the boot-up identifier, and that no LSS frame reaches the application callback.",
+   note=MC_NOTE, technique="TLA+/TLC model checking + edge-cover behaviours replayed against the C code", ref="DESIGN.md section 8, C18"),
 }
